@@ -66,6 +66,13 @@ def run(chk):
     extra = [("k%d" % n, "import qmluic.QtWidgets\n" + q + "\n", what) for n, (what, q) in enumerate(KINDS)]
     extra += [("x%d" % n, open(f).read(), os.path.basename(f)) for n, f in enumerate(sorted(glob.glob(os.path.join(REPO, "examples", "*.qml"))))]
     reqs += [{"id": i, "src": q, "type_name": "Doc", "modes": ["generate", "reject", "omit"]} for i, q, _ in extra]
+    # documents that instantiate QML components (file based): <customwidgets> is part of the form in every mode
+    comp = {"MyPanel.qml": "import qmluic.QtWidgets\nQWidget { QLabel { id: inner } }\n", "MyButton.qml": "import qmluic.QtWidgets\nQPushButton { }\n",
+            "sub/Deep.qml": "import qmluic.QtWidgets\nQLabel { }\n"}
+    for n, body in enumerate(["QWidget { MyPanel { } }", "QWidget { MyPanel { } MyButton { text: \"x\" } MyPanel { } }", "MyPanel { MyButton { } }",
+                              "QWidget { QCheckBox { id: chk } MyButton { enabled: chk.checked } }", "QWidget { MyButton { onClicked: {} } }"]):
+        files = dict(comp, **{"Doc.qml": "import qmluic.QtWidgets\nimport \"sub\"\n" + body.replace("QWidget {", "QWidget { Deep { }", 1) + "\n"})
+        reqs.append({"id": "f%d" % n, "files": files, "path": "Doc.qml", "type_name": "Doc", "modes": ["generate", "reject", "omit"], "src": files["Doc.qml"]})
     out = translate(reqs, metatypes=[QT5_METATYPES])
     recs, back = [], []
     for q in reqs:
